@@ -12,7 +12,12 @@ VARIABLES present, flip, swap, zo, geo, border
 vars == <<present, flip, swap, zo, geo, border>>
 
 NoGeo == [L0 |-> 0, w |-> 0, n |-> 0, e |-> 0, s |-> 0]
+\* boxes that are degenerate ON the antimeridian (lon = +180 / -180 on both sides) or on the northern / southern limit of the
+\* projection: the quantifier names "boxes touching the antimeridian" and "degenerate points" (8 = +180 deg / southern limit)
+EdgePairs == { <<<<8, 8>>, <<0, 8>>>>, <<<<8, 8>>, <<3, 3>>>>, <<<<0, 0>>, <<0, 8>>>>, <<<<0, 0>>, <<3, 3>>>>,
+               <<<<0, 8>>, <<0, 0>>>>, <<<<4, 4>>, <<0, 0>>>>, <<<<0, 8>>, <<8, 8>>>>, <<<<4, 4>>, <<8, 8>>>>, <<<<7, 8>>, <<2, 6>>>> }
 GeoOpts == {NoGeo} \cup { [L0 |-> 2, w |-> xp[1], e |-> xp[2], n |-> yp[1], s |-> yp[2]] : xp \in XPairs, yp \in YPairs }
+                   \cup { [L0 |-> 2, w |-> p[1][1], e |-> p[1][2], n |-> p[2][1], s |-> p[2][2]] : p \in EdgePairs }
 
 UniverseQuick == << <<0, 0, 0>>, <<1, 1, 0>>, <<2, 0, 1>>, <<2, 3, 1>>, <<2, 1, 2>>, <<2, 2, 3>> >>
 UniverseThorough == UniverseQuick \o << <<1, 0, 0>>, <<2, 3, 3>> >>
